@@ -24,6 +24,8 @@ func init() {
 			"two fields are treated as the same field only when name, alias, absence of selections, arguments and directives agree, and a selection is removed only on that verdict after its defer information was merged. " +
 			"It does not decide exec(norm(q)) == exec(q), validity preservation or idempotence (value level).",
 		Mutants: []Mutant{
+			{Name: "enclosing type resolved in the operation document while inlining a fragment spread", File: "v2/pkg/astnormalization/fragment_spread_inlining.go", Rule: "C03-R7", Key: "fragmentSpreadInlineVisitor.replaceFragmentSpread/Document.NodeNameBytes",
+				Old: "parentTypeName := f.definition.NodeNameBytes(f.EnclosingTypeDefinition)", New: "parentTypeName := f.operation.NodeNameBytes(f.EnclosingTypeDefinition)"},
 			{Name: "skipped list elements do not advance the element counter (the repaired defect F17)", File: "v2/pkg/astnormalization/inject_input_default_values.go", Rule: "C03-R6", Key: "jsonWalker/element-counter-advances",
 				Old: "\t\tdefer func() { i++ }()\n\t\tif listOfList && dataType == jsonparser.Array {", New: "\t\tif dataType != jsonparser.Null {\n\t\t\tdefer func() { i++ }()\n\t\t}\n\t\tif listOfList && dataType == jsonparser.Array {"},
 			{Name: "CopyInlineFragment shares the selection set of its source (seeded change C03-13)", File: "v2/pkg/ast/ast_inline_fragment.go", Rule: "C03-R5", Key: "Document.CopyInlineFragment/SelectionSet",
@@ -63,6 +65,9 @@ func runC03(r *fw.Run) {
 	visitorStateReset(r, "C03-R1", "astnorm", map[string]string{})
 	c03DeepCopies(r)
 	c03ElementIndexCounters(r)
+
+	r.Rule("C03-R7", "in every normalization visitor a node is looked up only in the document it came from: a definition node (Walker.EnclosingTypeDefinition, TypeDefinitions, a lookup in the definition) is never handed to a method of the operation document, nor the other way round")
+	documentProvenance(r, "C03-R7", []string{"astnorm"}, 23)
 
 	// ---- R2 stage order --------------------------------------------------------------------------
 	r.Rule("C03-R2", "walker stages are appended in the required partial order (each constraint: rule A is applied to a walker appended strictly before the walker of rule B, or the same one where noted)")
